@@ -4,9 +4,13 @@ import (
 	"context"
 	"encoding/json"
 	"fmt"
+	"os"
+	"path/filepath"
 	"testing"
 
 	"go.lsp.dev/protocol"
+
+	"github.com/juev/hledger-lsp/internal/workspace"
 )
 
 // C01 server.lemma.wire_step: a ranged insertion at 0:0 (empty range at the start of a non-empty document) must insert,
@@ -35,6 +39,45 @@ func TestVerifWitness_C16_edit_start_past_cursor(t *testing.T) {
 	r := calculateTextEditRange("account foo", protocol.Position{Line: 0, Character: 3}, ContextAccount)
 	if r != nil && r.Start.Character > r.End.Character {
 		fmt.Printf("WITNESS-FAILS line \"account foo\", cursor at 0:3, account context: edit range %d..%d starts after the cursor\n", r.Start.Character, r.End.Character)
+		return
+	}
+	fmt.Println("WITNESS-HOLDS")
+}
+
+// C09 server.(*Server).References#call[server.findReferences]...: occurrences must be attributed to the file that contains
+// them, whichever file of the tree the request is made from.
+func TestVerifWitness_C09_references_from_included_file(t *testing.T) {
+	dir := t.TempDir()
+	mainSrc := "include inc.journal\n\n2024-01-01 root tx\n    assets:cash  1 USD\n    income:x\n"
+	incSrc := "2024-01-02 inc tx\n    expenses:food  2 USD\n    assets:cash\n"
+	os.WriteFile(filepath.Join(dir, "main.journal"), []byte(mainSrc), 0o644)
+	os.WriteFile(filepath.Join(dir, "inc.journal"), []byte(incSrc), 0o644)
+	s := NewServer()
+	s.workspace = workspace.NewWorkspace(dir, s.loader)
+	if err := s.workspace.Initialize(); err != nil {
+		fmt.Println("WITNESS-HOLDS (workspace init failed)", err)
+		return
+	}
+	incURI := protocol.DocumentURI("file://" + filepath.Join(dir, "inc.journal"))
+	s.DidOpen(context.Background(), &protocol.DidOpenTextDocumentParams{TextDocument: protocol.TextDocumentItem{URI: incURI, Text: incSrc}})
+	locs, _ := s.References(context.Background(), &protocol.ReferenceParams{
+		TextDocumentPositionParams: protocol.TextDocumentPositionParams{TextDocument: protocol.TextDocumentIdentifier{URI: incURI}, Position: protocol.Position{Line: 2, Character: 6}},
+		Context:                    protocol.ReferenceContext{IncludeDeclaration: true},
+	})
+	// assets:cash occurs on line 3 of main.journal (0-based) and on line 2 of inc.journal
+	var got []string
+	okMain, okInc := false, false
+	for _, l := range locs {
+		got = append(got, fmt.Sprintf("%s:%d", filepath.Base(string(l.URI)), l.Range.Start.Line))
+		if filepath.Base(string(l.URI)) == "main.journal" && l.Range.Start.Line == 3 {
+			okMain = true
+		}
+		if filepath.Base(string(l.URI)) == "inc.journal" && l.Range.Start.Line == 2 {
+			okInc = true
+		}
+	}
+	if !okMain || !okInc || len(locs) != 2 {
+		fmt.Printf("WITNESS-FAILS references to assets:cash asked from inc.journal (root main.journal includes it): got %v, the occurrences are main.journal:3 and inc.journal:2\n", got)
 		return
 	}
 	fmt.Println("WITNESS-HOLDS")
